@@ -103,7 +103,7 @@ def run_pair(job):
         for path in sorted(paths):
             try:
                 old = before[path][0].decode("utf-8")
-                real = after[path].decode("utf-8")
+                real = after[path].decode("utf-8", "replace")
             except (KeyError, UnicodeDecodeError):
                 continue
             if "\r" in old.replace("\r\n", "") and "\n" in old.replace("\r\n", ""):
